@@ -42,7 +42,7 @@ func (g *Gen) globalInitTerm(full string, busy map[string]bool) (string, bool) {
 		return "", false
 	}
 	pkgPath, vname := full[:i], full[i+1:]
-	if !strings.HasPrefix(pkgPath, repoPrefix) || g.writtenGlobals()["G|"+full] {
+	if !(strings.HasPrefix(pkgPath, repoPrefix) || verifiedDeps[pkgPath]) || g.writtenGlobals()["G|"+full] {
 		return "", false
 	}
 	p := g.allPkgs[pkgPath]
